@@ -12,6 +12,9 @@ Progs == [
   quick      |-> <<W("out", 2), W("err", 2), X(7)>>,              \* may exit before the parent ever polls
   closein    |-> <<R(1), I("CloseIn"), W("out", 2), X(0)>>,       \* closes stdin early
   closeout   |-> <<W("out", 1), I("CloseOut"), I("RAll"), W("err", 2), X(1)>>,
-  both       |-> <<W("err", 3), W("out", 3), I("RAll"), X(0)>> ]
+  both       |-> <<W("err", 3), W("out", 3), I("RAll"), X(0)>>,
+  hang       |-> <<W("out", 2), I("Hang")>>,                      \* outlives every deadline
+  ignhang    |-> <<I("IgnTerm"), W("out", 2), W("err", 1), I("Hang")>>,   \* ... and ignores SIGTERM
+  slowexit   |-> <<I("IgnTerm"), W("out", 3), X(4)>> ]            \* may or may not finish before the deadline
 MCProg == Progs[ProgName]
 =============================================================================
